@@ -28,6 +28,37 @@ type Runner struct {
 	// Matrix: native column type -> "source Go type -> target Go type" (or "spec -> target") -> number of
 	// decodes that succeeded and were compared; printed into the evidence as the coverage matrix
 	Matrix map[string]map[string]int
+	// retained: every decoded value handed back by Unmarshal is kept until the end of the run and read again
+	retained []retainedOut
+}
+
+type retainedOut struct {
+	idx    int
+	reread func() *Val
+	coq    string
+}
+
+func (rn *Runner) retain(idx int, reread func() *Val, res *Val) {
+	if reread != nil && res != nil {
+		rn.retained = append(rn.retained, retainedOut{idx, reread, res.Coq()})
+	}
+}
+
+// Recheck: the retained-output recheck.  Every value decoded during the run is read from its target again
+// (after all the other calls, after the input buffers were overwritten) and must still be what it was.
+func (rn *Runner) Recheck() {
+	bad := 0
+	for _, r := range rn.retained {
+		now := r.reread().Coq()
+		if now != r.coq {
+			bad++
+			if bad <= 5 {
+				rn.O.Violate(r.idx, "retained-output-changed", "", fmt.Sprintf("decoded value was %s, at the end of the run it is %s", r.coq, now), nil)
+			}
+		}
+	}
+	rn.O.Extra["retained_outputs_rechecked"] = len(rn.retained)
+	rn.O.Extra["retained_outputs_changed"] = bad
 }
 
 func (rn *Runner) count(t *Ty, src string, g *GTy) {
@@ -635,9 +666,10 @@ func nullKept(g *GTy, res *Val) bool {
 // orig is what the value is compared with (nil: no monitor, correspondence only).
 func (rn *Runner) DecodeCase(kind string, pv int, t *Ty, data []byte, g *GTy, c *CV, isnull bool, monitor bool, what string) (*Val, int) {
 	o := rn.O
-	res, cls, msg := DoUnmarshal(t.Info(byte(pv)), data, g)
+	res, cls, msg, reread := DoUnmarshal(t.Info(byte(pv)), data, g)
 	term := fmt.Sprintf("CUnmarshal %d %s %s %s %s", pv, t.Coq(), OptBytesCoq(data), g.Coq(), UResCoq(res, cls))
 	idx := o.Case(kind, cls == ClsOk && len(data) > 0, term)
+	rn.retain(idx, reread, res)
 	rn.Stat[fmt.Sprintf("unmarshal-class-%d", cls)]++
 	if !monitor {
 		return res, cls
@@ -857,9 +889,10 @@ func (rn *Runner) RoundTrip(kind string, pv int, t *Ty, v *Val, targets []*GTy) 
 		if g == nil || !SafeToDecode(pv, t, out) {
 			continue
 		}
-		res, dcls, msg := DoUnmarshal(t.Info(byte(pv)), out, g)
+		res, dcls, msg, reread := DoUnmarshal(t.Info(byte(pv)), out, g)
 		term := fmt.Sprintf("CUnmarshal %d %s %s %s %s", pv, t.Coq(), OptBytesCoq(out), g.Coq(), UResCoq(res, dcls))
 		idx := o.Case(kind+"-unmarshal", dcls == ClsOk && len(out) > 0, term)
+		rn.retain(idx, reread, res)
 		rn.Stat[fmt.Sprintf("rt-unmarshal-class-%d", dcls)]++
 		if !ok {
 			rn.Stat["rt-no-denotation"]++
